@@ -697,19 +697,49 @@ def rec_queue(ck, fm: FuncModel, loop):
 
 
 # ---- flag-controlled fixpoints -------------------------------------------------------------------
-def rec_flag(ck, fm: FuncModel, loop):
+def _flag_form(fm: FuncModel, loop):
+    """(flag, value with which the loop continues) for `while not F`, `while F`, and
+    `while True: ... if [not] F: break` (the guarded break being the only way around the back edge)."""
     t = loop.test
-    if not (isinstance(t, ast.UnaryOp) and isinstance(t.op, ast.Not) and isinstance(t.operand, ast.Name)):
+    if isinstance(t, ast.UnaryOp) and isinstance(t.op, ast.Not) and isinstance(t.operand, ast.Name):
+        return t.operand.id, False
+    if isinstance(t, ast.Name):
+        return t.id, True
+    if isinstance(t, ast.Constant) and t.value is True:
+        cands = []
+        for st in loop.body:
+            if isinstance(st, ast.If) and not st.orelse and len(st.body) >= 1 and isinstance(st.body[-1], ast.Break):
+                c, val = st.test, False   # `if F: break` -> continues with F False
+                if isinstance(c, ast.UnaryOp) and isinstance(c.op, ast.Not):
+                    c, val = c.operand, True
+                if isinstance(c, ast.Name):
+                    cands.append((st, c.id, val))
+        if len(cands) == 1:
+            st, F, val = cands[0]
+            # every path to the next iteration passes the test of that `if`
+            tn = fm.cfgn(st.test)
+            if fm.cfg.loop_header[loop].id not in _within(fm, loop, _tbranch(fm, loop), {tn.id}):
+                return F, val
+    return None
+
+
+def rec_flag(ck, fm: FuncModel, loop):
+    form = _flag_form(fm, loop)
+    if form is None:
         return None
-    F = t.operand.id
+    F, cont = form
     nodes = _nodes_in(fm, loop)
-    sets_true = [n for n in nodes if n.kind == "stmt" and isinstance(n.ast, ast.Assign) and text(n.ast.targets[0]) == F and is_true(n.ast.value)]
-    clears = [n for n in nodes if n.kind == "stmt" and isinstance(n.ast, ast.Assign) and text(n.ast.targets[0]) == F and is_false(n.ast.value)]
+    is_cont = is_true if cont else is_false
+    is_stop = is_false if cont else is_true
+    sets_true = [n for n in nodes if n.kind == "stmt" and isinstance(n.ast, ast.Assign) and text(n.ast.targets[0]) == F and is_stop(n.ast.value)]
+    clears = [n for n in nodes if n.kind == "stmt" and isinstance(n.ast, ast.Assign) and text(n.ast.targets[0]) == F and is_cont(n.ast.value)]
     other = [n for n in _assigns(fm, loop, F) if n not in sets_true and n not in clears]
+    if isinstance(loop.test, ast.Name) and not sets_true and not clears:
+        return None  # `while xs:` over a container, not a Boolean flag
     if other:
         return False, f"flag `{F}` assigned a computed value at line {other[0].lineno}"
     if not sets_true:
-        return False, f"flag `{F}` is never set inside the loop"
+        return False, f"flag `{F}` is never reset inside the loop"
     hdr = fm.cfg.loop_header[loop]
     tb = _tbranch(fm, loop)
     prog_nodes, kinds = _progress_nodes(ck, fm, loop)
@@ -720,7 +750,7 @@ def rec_flag(ck, fm: FuncModel, loop):
         if pre and post and c.id not in prog_nodes:
             bad.append(c)
     if bad:
-        return False, (f"`{F} = False` at line {bad[0].lineno} lies on a path through the loop body that contains no progress "
+        return False, (f"`{F} = {cont}` at line {bad[0].lineno} lies on a path through the loop body that contains no progress "
                        f"statement (no set growth, no worklist removal, no strict decrease, no one-shot latch): the "
                        f"loop can repeat with identical state")
     return True, f"every path that clears `{F}` makes progress ({', '.join(sorted(kinds)) or 'flag never cleared'})"
@@ -874,11 +904,20 @@ def rec_geom(ck, fm: FuncModel, loop):
                     continue
                 t, p = b.test, b.pol
                 if p and b.id in _loop_ids(fm, loop) and isinstance(t, ast.BoolOp) and isinstance(t.op, ast.And):
-                    eqs = [v for v in t.values if isinstance(v, ast.Compare) and isinstance(v.ops[0], ast.Eq)
+                    tnode = fm.cfg.nodes[next(iter(fm.cfg.g.predecessors(b.id)))]
+                    vals = []
+                    for v in t.values:
+                        if isinstance(v, ast.Name):
+                            # a local that holds the comparison, evaluated earlier in the same iteration
+                            sd_ = fm.single_def(v.id, tnode)
+                            if sd_ and sd_[0].id in _loop_ids(fm, loop):
+                                v = sd_[1]
+                        vals.append(v)
+                    eqs = [v for v in vals if isinstance(v, ast.Compare) and isinstance(v.ops[0], ast.Eq)
                            and f"len({X})" in text(v)]
-                    gts = [v for v in t.values if isinstance(v, ast.Compare) and isinstance(v.ops[0], (ast.Gt, ast.GtE))
+                    gts = [v for v in vals if isinstance(v, ast.Compare) and isinstance(v.ops[0], (ast.Gt, ast.GtE))
                            and any(isinstance(q, ast.Name) and q.id == c for q in ast.walk(v.left))]
-                    if eqs and gts and len(t.values) == 2:
+                    if eqs and gts and len(vals) == 2:
                         brk = (n, eqs[0], gts[0])
     if brk is None:
         probs.append(f"no exit of the form `len(new) == len({X}) and <budget in {c}> > bound`")
